@@ -1,6 +1,14 @@
 (* C06 over the language-chain pass models: PRESERVATION of the normal-form predicates (and of
    the side conditions the union passes need) by the later passes of the chains, and the
-   conditional chain theorems that follow. *)
+   conditional chain theorems that follow.
+   WHAT IS HERE
+   - all_clean / all_clean_below and the shape lemmas of every union callback (dwnto/docte/dim/udta/fd/dtt);
+   - per pass, `<pass>_pres[_below]` for the generic predicate classes (v0_pres for union visitors, srel instances for
+     ASTN, NRFN, AETE, PEV, RNEV, DOASTE), plus the bookkeeping predicates p_nuf / p_nui / p_null3 / p_hasnull;
+   - tame_go / tame_java / tame_python (decidable, partly computed on the model's own mid-chain state) and
+     go_chain_nf, java_chain_core_nf, python_chain_nf:  tame_<l> ss = true -> process chain_<l> ss = Ok out ->
+     nf_violations "<l>" out = [];
+   - non-vacuity (go_chain_nf_nonvacuous, python_chain_nf_nonvacuous on w_tame) and tame_go_conditions_needed. *)
 From Coq Require Import List String Bool Ascii Lia.
 From Cog Require Import Model.IR Model.Names Model.Passes Model.PassesChain Model.Process Model.NF
      Proofs.TyInd Proofs.ChainLemmas Proofs.ChainNFProofs.
